@@ -47,6 +47,24 @@
 //!     `C36:spawn-too-early` / `C36:spawn-stalled` as above with creations as attempts (every attempt
 //!                                       succeeds: the stub always answers and loopback connects).
 //!
+//! Part C — the real `StandardSpawner` with the DNS outcome scripted PER ATTEMPT, failing lookups
+//!   included (added after a seeded defect — stale cached address reused after a failed forced
+//!   re-resolution — slipped through part B, whose stub always answers). The real spawner sits behind
+//!   `Wrap`, a pure forwarding `Spawner` adapter that installs the scripted DNS outcome before each
+//!   `try_spawn`, logs attempt start/end and reads back whether the attempt performed a lookup.
+//!   schedule ALL 4^n placements of {none, Removed(D), Removed(N), Removed(U)} on n slots of the 500 ms
+//!            grid x ALL 5^m per-attempt DNS outcome sequences over {a:[A], b:[B], m:[B,A],
+//!            f: only unconnectable addresses, e: empty answer};
+//!   quick    n = 4, m = 4, phase 0 (160 000 schedules); thorough adds n = 5, m = 4, phases {0,1}.
+//!   Oracle:  `C36:unreachable-not-reresolved`  every source created after an Unreachable removal uses
+//!                                       the address of a SUCCESSFUL lookup performed after that
+//!                                       removal (never an address cached from before it);
+//!            `C36:address-not-from-latest-lookup`, `C36:demobilized-respawned`,
+//!            `C36:spawn-too-early` (attempt starts >= 1 s apart, failed attempts included),
+//!            `C36:spawn-stalled` (an attempt that creates nothing leaves the spawner incomplete: next
+//!                                       attempt within 1 s + 1 ms of its end; after Removed(N/U) within
+//!                                       max(t, last end + 1 s) + 1 ms).
+//!
 //! Determinism is asserted: every 61st schedule is executed twice and the observations compared.
 use std::net::{IpAddr, Ipv4Addr, SocketAddr};
 use std::sync::{Arc, Mutex};
@@ -680,6 +698,369 @@ fn trace_b(phase: u64, grid: u64, slots: &[usize]) -> String {
 }
 
 // ---------------------------------------------------------------------------------------------
+// Part C: real StandardSpawner, DNS outcome scripted PER ATTEMPT (incl. failing lookups)
+// ---------------------------------------------------------------------------------------------
+// The real `StandardSpawner` is wrapped in `Wrap`, a pure forwarding adapter implementing the
+// `Spawner` trait: every trait method delegates to the inner real spawner unchanged; `try_spawn`
+// additionally (a) installs the DNS outcome scripted for this attempt in the cfg(test) DNS stub
+// before delegating, (b) logs the attempt's start/end in virtual time and (c) reads back whether the
+// stub list rotated, i.e. whether this attempt performed a lookup. The real `spawner_task` loop runs
+// `Wrap`, so pacing, event delivery and the spawner's own state are all the code under test.
+//
+// DNS outcomes (what a lookup performed during that attempt answers):
+//   a : [A, pads]      -> resolves to A          b : [B, pads]  -> resolves to B (changed address)
+//   m : [B, A, pads]   -> both, B first          f : [pads only] -> answer without any connectable
+//   e : []  (empty answer, "unknown domain name")                   address: resolution fails
+// pads = 255.255.255.255:900x, for which UDP connect() fails (verified at start-up); they make the
+// rotation of the stub list visible for one-address answers. The `Err(..)` result of `lookup_host`
+// itself cannot be produced through the stub; in `resolve_single_ntp_server` it joins `e` and `f`
+// in returning `None`, which is all the spawner sees.
+const OUTCOMES: [char; 5] = ['a', 'b', 'm', 'f', 'e'];
+const C_ALPHA: [usize; 4] = [K_NONE, K_RD, K_RN, K_RU];
+
+fn addr_a() -> SocketAddr {
+    SocketAddr::new(IpAddr::V4(Ipv4Addr::new(127, 0, 36, 1)), 123)
+}
+fn addr_b() -> SocketAddr {
+    SocketAddr::new(IpAddr::V4(Ipv4Addr::new(127, 0, 36, 2)), 123)
+}
+fn pad(i: u16) -> SocketAddr {
+    SocketAddr::new(IpAddr::V4(Ipv4Addr::new(255, 255, 255, 255)), 9000 + i)
+}
+
+/// Raw stub list for an outcome (the stub moves the last element to the front before answering).
+fn raw_of(o: usize) -> Vec<SocketAddr> {
+    match OUTCOMES[o] {
+        'a' => vec![addr_a(), pad(1), pad(2), pad(3)],
+        'b' => vec![addr_b(), pad(1), pad(2), pad(3)],
+        'm' => vec![addr_a(), pad(1), pad(2), addr_b()], // answer: B, A, pad1, pad2
+        'f' => vec![pad(1), pad(2), pad(3), pad(4)],
+        _ => vec![],
+    }
+}
+
+/// What one lookup under outcome `o` resolves to (first connectable address of the answer).
+fn resolves_to(o: usize) -> Option<SocketAddr> {
+    match OUTCOMES[o] {
+        'a' => Some(addr_a()),
+        'b' | 'm' => Some(addr_b()),
+        _ => None,
+    }
+}
+
+fn addr_name(a: &SocketAddr) -> &'static str {
+    if *a == addr_a() {
+        "A"
+    } else if *a == addr_b() {
+        "B"
+    } else {
+        "?"
+    }
+}
+
+#[derive(Clone, Debug, PartialEq, Eq, Hash)]
+enum RecC {
+    /// time, attempt index (0-based), outcome installed
+    AttemptStart(u64, usize, usize),
+    /// time, lookups performed by this attempt (stub rotations; None when invisible: outcome `e`)
+    AttemptEnd(u64, Option<usize>),
+    /// time, created address
+    Create(u64, SocketAddr),
+    /// time, removal kind
+    Sent(u64, usize),
+}
+
+struct Wrap {
+    inner: StandardSpawner,
+    dns: DnsScript,
+    outcomes: Vec<usize>,
+    k: usize,
+    t0: Instant,
+    log: Arc<Mutex<Vec<RecC>>>,
+}
+
+impl Spawner for Wrap {
+    type Error = crate::daemon::spawn::standard::StandardSpawnError;
+
+    async fn try_spawn(&mut self, action_tx: &mpsc::Sender<SpawnEvent>) -> Result<(), Self::Error> {
+        let o = self.outcomes[self.k.min(self.outcomes.len() - 1)];
+        let raw = raw_of(o);
+        self.dns.set_raw(&raw);
+        self.log.lock().unwrap().push(RecC::AttemptStart(us(self.t0), self.k, o));
+        self.k += 1;
+        let r = self.inner.try_spawn(action_tx).await;
+        let rot = if raw.is_empty() { None } else { self.dns.rotations_since(&raw) };
+        self.log.lock().unwrap().push(RecC::AttemptEnd(us(self.t0), rot));
+        r
+    }
+    fn is_complete(&self) -> bool {
+        self.inner.is_complete()
+    }
+    async fn handle_source_removed(&mut self, ev: SourceRemovedEvent) -> Result<(), Self::Error> {
+        self.inner.handle_source_removed(ev).await
+    }
+    async fn handle_registered(&mut self, ev: SourceCreateParameters) -> Result<(), Self::Error> {
+        self.inner.handle_registered(ev).await
+    }
+    fn get_id(&self) -> SpawnerId {
+        self.inner.get_id()
+    }
+    fn get_addr_description(&self) -> String {
+        self.inner.get_addr_description()
+    }
+    fn get_description(&self) -> &'static str {
+        self.inner.get_description()
+    }
+}
+
+#[derive(Clone, Debug, PartialEq, Eq, Hash)]
+struct ObsC {
+    log: Vec<RecC>,
+    horizon: u64,
+    task_finished: Option<String>,
+}
+
+async fn run_c(phase_ms: u64, grid_ms: u64, slots: &[usize], outcomes: &[usize]) -> ObsC {
+    let (addr, dns) = dnsp::scripted("single.verif.example", 123);
+    let sp = StandardSpawner::new(
+        StandardSource {
+            address: addr.into(),
+            ntp_version: ProtocolVersion::V4,
+        },
+        SourceConfig::default(),
+    );
+    let t0 = Instant::now();
+    let log = Arc::new(Mutex::new(Vec::new()));
+    let wrap = Wrap {
+        inner: sp,
+        dns,
+        outcomes: outcomes.to_vec(),
+        k: 0,
+        t0,
+        log: log.clone(),
+    };
+    let (action_tx, mut action_rx) = mpsc::channel::<SpawnEvent>(crate::daemon::system::MESSAGE_BUFFER_SIZE);
+    let (notify_tx, notify_rx) = mpsc::channel::<SystemEvent>(crate::daemon::system::MESSAGE_BUFFER_SIZE);
+    let active: Arc<Mutex<Option<ClockId>>> = Arc::new(Mutex::new(None));
+    let task = tokio::spawn(spawner_task(wrap, action_tx, notify_rx));
+    let log2 = log.clone();
+    let active2 = active.clone();
+    let receiver = tokio::spawn(async move {
+        while let Some(ev) = action_rx.recv().await {
+            let SpawnAction::Create(params) = ev.action;
+            let a = match &params {
+                SourceCreateParameters::Ntp(p) => p.addr,
+                _ => SocketAddr::new(IpAddr::V4(Ipv4Addr::UNSPECIFIED), 0),
+            };
+            *active2.lock().unwrap() = Some(params.get_id());
+            log2.lock().unwrap().push(RecC::Create(us(t0), a));
+        }
+    });
+    for (k, kind) in slots.iter().enumerate() {
+        let at = t0 + Duration::from_millis(phase_ms + grid_ms * k as u64);
+        tokio::time::sleep_until(at).await;
+        if *kind == K_NONE {
+            continue;
+        }
+        let id = active.lock().unwrap().take();
+        if let Some(id) = id {
+            log.lock().unwrap().push(RecC::Sent(us(t0), *kind));
+            let _ = notify_tx.send(SystemEvent::source_removed(id, reason_of(*kind))).await;
+        }
+    }
+    let last = phase_ms + grid_ms * (slots.len().max(1) as u64 - 1);
+    let horizon_ms = last + 2500;
+    tokio::time::sleep_until(t0 + Duration::from_millis(horizon_ms)).await;
+    let task_finished = if task.is_finished() {
+        Some(match task.await {
+            Ok(Ok(())) => "returned Ok".to_string(),
+            Ok(Err(e)) => format!("returned Err({e})"),
+            Err(e) => format!("join error: {e}"),
+        })
+    } else {
+        task.abort();
+        let _ = task.await;
+        None
+    };
+    drop(notify_tx);
+    receiver.abort();
+    let _ = receiver.await;
+    let log = log.lock().unwrap().clone();
+    ObsC {
+        log,
+        horizon: horizon_ms * MS,
+        task_finished,
+    }
+}
+
+#[derive(Default)]
+struct FactsC {
+    attempts: u64,
+    attempts_with_lookup: u64,
+    attempts_from_cache: u64,
+    attempts_failed: u64,
+    creates: u64,
+    removals: u64,
+    demobilized: bool,
+    creates_after_unreachable: u64,
+    failed_forced_lookup_after_unreachable: u64,
+}
+
+/// Statement oracle for part C.
+fn judge_c(o: &ObsC) -> (Vec<(&'static str, String)>, FactsC) {
+    let mut v = Vec::new();
+    let mut f = FactsC::default();
+    if let Some(t) = &o.task_finished {
+        v.push(("C36:task-ended", format!("spawner_task ended while the system channel was open: {t}")));
+    }
+    // position (index in the log) and address of the latest SUCCESSFUL lookup
+    let mut last_success: Option<(usize, SocketAddr)> = None;
+    // log position of the latest Unreachable removal
+    let mut last_unreachable: Option<(usize, u64)> = None;
+    let mut demob_at: Option<u64> = None;
+    let mut cur_attempt: Option<(usize, u64, usize)> = None; // log pos, start, outcome
+    let mut last_start: Option<u64> = None;
+    let mut last_end: Option<u64> = None;
+    // deadline for the next attempt start (None: nothing due)
+    let mut due: Option<(u64, String)> = Some((WAIT + SLACK, "start".to_string()));
+    let mut attempt_created = false;
+    let mut awaiting_after_unreachable = false;
+    for (pos, r) in o.log.iter().enumerate() {
+        match r {
+            RecC::AttemptStart(t, _, out) => {
+                f.attempts += 1;
+                if let Some(ls) = last_start {
+                    if *t < ls + WAIT {
+                        v.push(("C36:spawn-too-early", format!("attempts started at {ls} us and {t} us, less than 1 s apart")));
+                    }
+                }
+                if let Some((dl, why)) = due.take() {
+                    if *t > dl {
+                        v.push(("C36:spawn-stalled", format!("attempt due by {dl} us ({why}) started at {t} us")));
+                    }
+                }
+                last_start = Some(*t);
+                cur_attempt = Some((pos, *t, *out));
+                attempt_created = false;
+            }
+            RecC::AttemptEnd(t, rot) => {
+                last_end = Some(*t);
+                let Some((apos, _, out)) = cur_attempt else { continue };
+                match rot {
+                    Some(0) => f.attempts_from_cache += 1,
+                    Some(_) => {
+                        f.attempts_with_lookup += 1;
+                        if let Some(a) = resolves_to(out) {
+                            last_success = Some((apos, a));
+                        } else if awaiting_after_unreachable {
+                            f.failed_forced_lookup_after_unreachable += 1;
+                        }
+                    }
+                    None => {}
+                }
+                // whether this attempt created a source is known once the receiver has logged it
+                // (same virtual instant, later in the log); handled in `Create` / at the next record
+            }
+            RecC::Create(t, a) => {
+                f.creates += 1;
+                attempt_created = true;
+                due = None;
+                if let Some(d) = demob_at {
+                    v.push(("C36:demobilized-respawned", format!("source demobilised at {d} us, yet a new source was created at {t} us for {}", addr_name(a))));
+                }
+                match last_success {
+                    Some((_, sa)) if sa == *a => {}
+                    other => v.push((
+                        "C36:address-not-from-latest-lookup",
+                        format!("source created at {t} us for {} ({a}); the latest successful lookup gave {:?}", addr_name(a), other.map(|x| x.1)),
+                    )),
+                }
+                if let Some((upos, ut)) = last_unreachable {
+                    f.creates_after_unreachable += 1;
+                    let fresh = last_success.map(|(lp, _)| lp > upos).unwrap_or(false);
+                    if !fresh {
+                        v.push((
+                            "C36:unreachable-not-reresolved",
+                            format!(
+                                "source removed as unreachable at {ut} us; the source created at {t} us uses {} ({a}), an address cached from before that removal: no successful lookup was performed after the removal",
+                                addr_name(a)
+                            ),
+                        ));
+                    }
+                }
+                awaiting_after_unreachable = false;
+            }
+            RecC::Sent(t, kind) => {
+                f.removals += 1;
+                match *kind {
+                    K_RD => {
+                        f.demobilized = true;
+                        demob_at = Some(*t);
+                        due = None;
+                    }
+                    k => {
+                        if k == K_RU {
+                            last_unreachable = Some((pos, *t));
+                            awaiting_after_unreachable = true;
+                        }
+                        let dl = (*t).max(last_end.map(|e| e + WAIT).unwrap_or(0)) + SLACK;
+                        due = Some((dl, format!("removal at {t} us")));
+                    }
+                }
+            }
+        }
+        // an attempt that ended without creating a source leaves the spawner incomplete: the next
+        // attempt is due one wait period after its end. Evaluate when the following record (or the
+        // end of the log) shows that no Create belongs to the attempt.
+        if let (RecC::AttemptEnd(t, _), Some(_)) = (r, cur_attempt) {
+            let next_is_create = o.log[pos + 1..]
+                .iter()
+                .take_while(|x| !matches!(x, RecC::AttemptStart(..)))
+                .any(|x| matches!(x, RecC::Create(ct, _) if *ct == *t));
+            if !next_is_create && demob_at.is_none() {
+                f.attempts_failed += 1;
+                due = Some((*t + WAIT + SLACK, format!("attempt ended at {t} us without creating a source")));
+            }
+        }
+    }
+    if let Some((dl, why)) = due {
+        if dl < o.horizon {
+            v.push(("C36:spawn-stalled", format!("attempt due by {dl} us ({why}) never started before the horizon {} us", o.horizon)));
+        }
+    }
+    let _ = attempt_created;
+    (v, f)
+}
+
+fn outcomes_str(o: &[usize]) -> String {
+    o.iter().map(|i| OUTCOMES[*i]).collect()
+}
+
+fn trace_c(phase: u64, grid: u64, slots: &[usize], outcomes: &[usize]) -> String {
+    format!("C;phase={phase};grid={grid};slots={};dns={}", slots_str(slots), outcomes_str(outcomes))
+}
+
+/// UDP connect() must fail for the pads and succeed for A and B, otherwise part C's outcomes do not
+/// mean what they say in this environment.
+fn env_ok_for_c() -> Result<(), String> {
+    let rt = rt_all();
+    rt.block_on(async {
+        use timestamped_socket::socket::{connect_address, GeneralTimestampMode};
+        for i in 1..=4 {
+            if connect_address(pad(i), GeneralTimestampMode::None).is_ok() {
+                return Err(format!("UDP connect to pad {} unexpectedly succeeded", pad(i)));
+            }
+        }
+        for a in [addr_a(), addr_b()] {
+            if let Err(e) = connect_address(a, GeneralTimestampMode::None) {
+                return Err(format!("UDP connect to {a} failed: {e}"));
+            }
+        }
+        Ok(())
+    })
+}
+
+// ---------------------------------------------------------------------------------------------
 // runtimes, replay, check
 // ---------------------------------------------------------------------------------------------
 fn rt_time_only() -> tokio::runtime::Runtime {
@@ -755,6 +1136,32 @@ fn replay(ctx: &Ctx, trace: &str) -> String {
                 .map(|r| match r {
                     RecB::Create(t, a, rot) => format!("create(addr#{a},lookups={rot})@{t}"),
                     RecB::Sent(t, k, rot) => format!("sent[{}](lookups={rot})@{t}", KNAMES[*k]),
+                })
+                .collect();
+            format!("[{}]; verdicts={:?}", log.join(" "), vs)
+        }
+        "C" => {
+            let grid: u64 = kv(&parts, "grid").and_then(|s| s.parse().ok()).unwrap_or(500);
+            let Some(outcomes) = kv(&parts, "dns").map(|s| s.chars().filter_map(|c| OUTCOMES.iter().position(|o| *o == c)).collect::<Vec<_>>()) else {
+                return format!("unparsable dns in {trace:?}");
+            };
+            if outcomes.is_empty() {
+                return format!("empty dns outcome list in {trace:?}");
+            }
+            let rt = rt_all();
+            let o = rt.block_on(run_c(phase, grid, &slots, &outcomes));
+            let (vs, _) = judge_c(&o);
+            for (c, w) in &vs {
+                ctx.violation(c, w.clone(), trace);
+            }
+            let log: Vec<String> = o
+                .log
+                .iter()
+                .map(|r| match r {
+                    RecC::AttemptStart(t, k, out) => format!("attempt#{k}[dns={}]@{t}", OUTCOMES[*out]),
+                    RecC::AttemptEnd(_, rot) => format!("lookups={}", rot.map(|r| r.to_string()).unwrap_or("?".into())),
+                    RecC::Create(t, a) => format!("create({})@{t}", addr_name(a)),
+                    RecC::Sent(t, k) => format!("removed[{}]@{t}", KNAMES[*k]),
                 })
                 .collect();
             format!("[{}]; verdicts={:?}", log.join(" "), vs)
@@ -921,9 +1328,66 @@ fn sweep_b(ctx: &Ctx, n: usize, grid: u64, phases: &[u64]) -> u64 {
                     ctx.violation("C36:harness-nondeterminism", "two executions of one schedule differ", trace_b(phase, grid, &w));
                 }
             }
-            if n == 5 && i % 2_203 == 1_234 {
+            if n == 5 && i % 5_001 == 1_234 {
                 let tmp = Ctx::new("C36");
                 ctx.sample(format!("{} => {}", trace_b(phase, grid, &w), replay(&tmp, &trace_b(phase, grid, &w))));
+            }
+        },
+    );
+    total
+}
+
+fn sweep_c(ctx: &Ctx, n: usize, m: usize, grid: u64, phases: &[u64]) -> u64 {
+    let words = common::pow(4, n);
+    let dns_words = common::pow(5, m);
+    let total = phases.len() as u64 * words * dns_words;
+    common::par_for_with(
+        total,
+        256,
+        || Worker::new(ctx, rt_all()),
+        |wk, i| {
+            let dw = common::word_of(i % dns_words, 5, m);
+            let rest = i / dns_words;
+            let w: Vec<usize> = common::word_of(rest % words, 4, n).into_iter().map(|x| C_ALPHA[x]).collect();
+            let phase = phases[(rest / words) as usize];
+            let o = match common::catch(|| wk.rt.block_on(run_c(phase, grid, &w, &dw))) {
+                Ok(o) => o,
+                Err(p) => {
+                    ctx.violation("C36:panic", format!("panic: {p}"), trace_c(phase, grid, &w, &dw));
+                    wk.rt = rt_all();
+                    return;
+                }
+            };
+            let (vs, f) = judge_c(&o);
+            wk.add("evaluations", 1);
+            wk.add("c_schedules", 1);
+            wk.add("transitions", o.log.len() as u64);
+            wk.add("c_attempts", f.attempts);
+            wk.add("c_attempts_with_lookup", f.attempts_with_lookup);
+            wk.add("c_attempts_from_cached_address", f.attempts_from_cache);
+            wk.add("c_attempts_without_source_created", f.attempts_failed);
+            wk.add("c_sources_created", f.creates);
+            wk.add("c_removals_sent", f.removals);
+            wk.add("c_runs_with_demobilisation", f.demobilized as u64);
+            wk.add("c_creates_after_unreachable", f.creates_after_unreachable);
+            wk.add("c_failed_lookups_while_unreachable_pending", f.failed_forced_lookup_after_unreachable);
+            for (c, what) in vs {
+                ctx.violation(c, what, trace_c(phase, grid, &w, &dw));
+            }
+            if f.removals > 0 || f.attempts_failed > 0 {
+                wk.distinct.push(common::hash_of(&("C", &o.log)));
+            }
+            if i % 61 == 0 {
+                let o2 = wk.rt.block_on(run_c(phase, grid, &w, &dw));
+                wk.add("determinism_reruns", 1);
+                if o2 != o {
+                    ctx.violation("C36:harness-nondeterminism", "two executions of one schedule differ", trace_c(phase, grid, &w, &dw));
+                }
+            }
+            if n == 4 && i % 39_989 == 20_011 {
+                let tmp = Ctx::new("C36");
+                let t = trace_c(phase, grid, &w, &dw);
+                ctx.sample(format!("{t} => {}", replay(&tmp, &t)));
             }
         },
     );
@@ -955,18 +1419,28 @@ fn check() {
     } else {
         vec![(5, vec![0, 1]), (6, vec![0, 1, 499])]
     };
+    // part C: (removal slots n, dns outcomes per attempt m, phases)
+    let blocks_c: Vec<(usize, usize, Vec<u64>)> = if quick {
+        vec![(4, 4, vec![0])]
+    } else {
+        vec![(4, 4, vec![0]), (5, 4, vec![0, 1])]
+    };
     let grid_b = 500u64;
     ctx.rule(&format!(
         "A: real spawner_task + scripted spawner, scripts {{C,I,F}} x durations {{0,300,1200}} ms, ALL 6^n placements of \
          {{none,Idle,Registered,Removed(D),Removed(N),Removed(U)}} on n slots of a 250 ms grid shifted by each phase, \
          (n, phases ms) blocks {blocks_a:?}; B: real spawner_task + real StandardSpawner + scripted DNS stub, ALL 6^n \
-         placements on n slots of a {grid_b} ms grid, blocks {blocks_b:?}. Virtual time (tokio paused clock, auto-advance to \
+         placements on n slots of a {grid_b} ms grid, blocks {blocks_b:?}; C: real spawner_task + real StandardSpawner (behind a \
+         forwarding adapter that scripts the DNS outcome of every attempt), ALL 4^n placements of {{none,Removed(D),Removed(N),Removed(U)}} \
+         on n slots of the {grid_b} ms grid x ALL 5^m sequences of per-attempt DNS outcomes {{a:[A], b:[B], m:[B,A], f:no connectable \
+         address, e:empty answer}} (attempts beyond m repeat the last), (n, m, phases) blocks {blocks_c:?}. Virtual time (tokio paused clock, auto-advance to \
          the next timer). A case is distinct & non-trivial by its observation (attempt/handler/creation times and kinds, ids \
          masked) when at least one event was sent."
     ));
     ctx.assume("tokio's paused clock + current-thread scheduler: timers fire at their deadline rounded up to 1 ms; tasks that become ready at the same virtual instant run in tokio's deterministic FIFO order (both orders around an instant are covered by the +-1 ms phases)");
     ctx.assume("part A: completeness after an attempt is the script's; any Removed makes the scripted spawner incomplete");
     ctx.assume("part B: the DNS stub always answers (8 distinct loopback addresses) and UDP connect() to 127.0.36.x succeeds, so every attempt of the real StandardSpawner creates a source; lookups are counted by the rotation of the stub list");
+    ctx.assume("part C: pads 255.255.255.255:900x are unconnectable and 127.0.36.1/2 connectable (checked at start-up, else part C is skipped and reported as a cap); the Err result of lookup_host cannot be produced through the stub - in resolve_single_ntp_server it returns None exactly like the empty and the unconnectable answer; the adapter Wrap forwards every Spawner method unchanged");
     ctx.assume("NtsSpawner (nts.rs) is not driven: it needs a TCP+TLS key-exchange peer; by reading, its handle_source_removed clears has_spawned for every reason");
 
     let scripts: Vec<Script> = MODES
@@ -995,6 +1469,25 @@ fn check() {
         expected_b += sweep_b(&ctx, *n, grid_b, phases);
     }
     ctx.set("b_schedules_expected", expected_b);
+    ctx.set("b_wall_ms", (ctx.elapsed_s() * 1000.0) as u64);
+    let mut expected_c = 0u64;
+    match env_ok_for_c() {
+        Ok(()) => {
+            for (bi, (n, m, phases)) in blocks_c.iter().enumerate() {
+                if bi > 0 && ctx.over_budget() {
+                    ctx.cap_hit(&format!("part C block (n={n}, m={m}, phases {phases:?}) not started; earlier blocks complete"));
+                    complete = false;
+                    break;
+                }
+                expected_c += sweep_c(&ctx, *n, *m, grid_b, phases);
+            }
+        }
+        Err(e) => {
+            ctx.cap_hit(&format!("part C not run: environment does not give the DNS outcomes their meaning: {e}"));
+            complete = false;
+        }
+    }
+    ctx.set("c_schedules_expected", expected_c);
     ctx.set("total_wall_ms", (ctx.elapsed_s() * 1000.0) as u64);
     ctx.set("states", ctx.distinct_count());
     ctx.exhaustive(complete);
